@@ -19,6 +19,10 @@
 // "queue:waitBelow:unlocked"), or has fetched the last segment of a complete playlist, or the
 // oracle has already fired.  No timeouts are used for inference (a watchdog turns a hang into an
 // infrastructure error after 3 reproductions).
+//
+// Further legs with their own oracles, each described where it is defined: cancellation with a full sample
+// queue, a track fragment without samples, and the Low-Latency mode (runLowLatency, not throttled: what was
+// queued is delivered exactly once, in order and unchanged however far the consumer lags, e2eLLExecute).
 package main
 
 import (
@@ -56,6 +60,13 @@ type e2eScenario struct {
 	// EXT-X-PART-INF, EXT-X-PRELOAD-HINT) but NOT blocking reloads: a legal playlist the client has to consume in
 	// its traditional, throttled mode; the hinted part is served at once and counts as a downloaded media file
 	Hint bool `json:"hint,omitempty"`
+	// Kind "ll" only (see e2eLLExecute): N parts are served one by one as preload hints of a blocking-reload
+	// playlist (Parts of them per listed segment); the first sample of part k does not leave the data callback
+	// before the downloader has queued min(k+1+Lag, N) parts
+	Lag int `json:"lag,omitempty"`
+	// Kind "ll" only: the server answers the request for part j only once the consumer has entered part j-Lag-1, so
+	// that the downloader stays Lag (+1 or 2) parts ahead instead of fetching everything at once
+	Paced bool `json:"paced,omitempty"`
 }
 
 func (sc e2eScenario) parts() int {
@@ -96,6 +107,14 @@ func e2eScenarios(tier string) []e2eScenario {
 		// a declared track whose fragment holds no sample (trun sample_count 0) in the second of four segments:
 		// every downloaded segment is passed on, in order, and the end of the stream is reported
 		{Name: "fmp4-vod-empty-track-fragment", Format: "fmp4", Kind: "empty-traf", N: 4},
+		// Low-Latency mode (CAN-BLOCK-RELOAD=YES + preload hint: runLowLatency, which is NOT throttled by the
+		// queue): every part carries its own index in every NAL unit; exactly-once, in order, unchanged,
+		// however far the consumer lags behind.
+		// the consumer sits in the callback of the very first sample until all 8 parts are queued (7 wait)
+		{Name: "fmp4-ll-8parts-consumer-held-until-all-queued", Format: "fmp4", Kind: "ll", N: 8, Parts: 4, Slow: true, Lag: 8},
+		// the consumer stays 4 to 6 parts behind the downloader all the way (the first sample of every part is held
+		// until the downloader is 4 parts ahead, the server serves a part only when the consumer is near enough)
+		{Name: "fmp4-ll-12parts-consumer-4-parts-behind", Format: "fmp4", Kind: "ll", N: 12, Parts: 4, Slow: true, Lag: 4, Paced: true},
 	}
 	if tier == "thorough" {
 		s = append(s,
@@ -109,6 +128,9 @@ func e2eScenarios(tier string) []e2eScenario {
 			e2eScenario{Name: "fmp4-vod-4parts-slow-firstpart", Format: "fmp4", Kind: "vod", N: 8, Slow: true, Parts: 4},
 			e2eScenario{Name: "fmp4-vod-3parts-fast", Format: "fmp4", Kind: "vod", N: 8, Parts: 3},
 			e2eScenario{Name: "fmp4-burst-3parts-slow-lastpart", Format: "fmp4", Kind: "burst", Slow: true, Parts: 3, HoldLastPart: true},
+			e2eScenario{Name: "fmp4-ll-40parts-consumer-held-until-all-queued", Format: "fmp4", Kind: "ll", N: 40, Parts: 4, Slow: true, Lag: 40},
+			e2eScenario{Name: "fmp4-ll-40parts-consumer-5-parts-behind", Format: "fmp4", Kind: "ll", N: 40, Parts: 3, Slow: true, Lag: 5, Paced: true},
+			e2eScenario{Name: "fmp4-ll-12parts-fast", Format: "fmp4", Kind: "ll", N: 12, Parts: 4},
 		)
 	}
 	return s
@@ -861,6 +883,404 @@ func e2eEmptyTrafExecute(sc e2eScenario) e2eEmptyTrafResult {
 	return res
 }
 
+// ---------- Low-Latency mode: queued parts keep their payload ----------
+//
+// A live fMP4 playlist with EXT-X-SERVER-CONTROL:CAN-BLOCK-RELOAD=YES, EXT-X-PART-INF, the EXT-X-PART entries of
+// the parts published so far and an EXT-X-PRELOAD-HINT: the client takes runLowLatency (download the hinted
+// part, push it, reload the playlist, ...), which - unlike runTraditional - never waits for the queue to drain.
+// The q-th playlist request (q = 0, 1, ...) is answered at once with parts 0..q-1 listed and part q hinted; the
+// request after the last part (q = sc.N) is the blocking reload that is never answered. Part k is one moof+mdat
+// with e2eSamplesPerPart H264 access units whose NAL units are filled with k (all parts have the same size).
+//
+// The downloader runs its loop in one goroutine, so the (j+1)-th reload is issued after part j has been pushed:
+// pushed = playlist requests - 1 is a lower bound of the parts queued so far that needs no look into the client.
+// Slow consumer: the callback of the first access unit of part k does not return before
+// pushed >= min(k+1+sc.Lag, sc.N), i.e. the downloader is sc.Lag parts ahead of the part being delivered (or has
+// queued everything) - condition variable, no sleeps. With sc.Paced the server in turn answers the request for
+// part j only once the consumer has entered part j-sc.Lag-1: the backlog then stays between sc.Lag and sc.Lag+2
+// parts for the whole run instead of being built up once.
+//
+// Oracle (property text: "segments pass from the client's downloader to its processor in download order, each
+// exactly once"; what is pushed is what is pulled): the access units that reach the data callback are exactly
+// those of parts 0..N-1, once each, in order, with the NAL units and the DTS that were served for that part, and
+// they do not change while the callback runs. The run is over when the blocking reload has been received (all
+// parts pushed), the stream processor was last seen finding the queue empty (hook "queue:pull:unlocked", no
+// sample since) and one stop-the-world goroutine dump shows every goroutine of the client blocked with no event
+// in between: nothing more can be delivered. A 20 s watchdog turns anything else into an infrastructure error
+// (three reproductions).
+
+const e2eLLNALUSize = 48
+
+// the access unit served as sample i of part k
+func e2eLLAU(k, i int) [][]byte {
+	nalu := bytes.Repeat([]byte{byte(k)}, e2eLLNALUSize)
+	nalu[0], nalu[2] = 1, byte(i)
+	if i == 0 {
+		nalu[0] = 5
+		return [][]byte{e2eSPS, e2ePPS, nalu}
+	}
+	return [][]byte{nalu}
+}
+
+func e2eLLPart(k int) []byte {
+	var ss []*fmp4.PartSample
+	for i := 0; i < e2eSamplesPerPart; i++ {
+		b, err := h264.AVCC(e2eLLAU(k, i)).Marshal()
+		if err != nil {
+			panic(err)
+		}
+		ss = append(ss, &fmp4.PartSample{Duration: e2eTick, Payload: b, IsNonSyncSample: i != 0})
+	}
+	return e2eMP4(&fmp4.Part{SequenceNumber: uint32(k), Tracks: []*fmp4.PartTrack{{
+		ID: 1, BaseTime: uint64(90000 + k*e2eSamplesPerPart*e2eTick), Samples: ss,
+	}}})
+}
+
+// "part.index" when the access unit is, byte for byte, the one served as that sample; otherwise what is left of it
+func e2eLLDescribe(au [][]byte) string {
+	if len(au) == 0 || len(au[len(au)-1]) < 3 {
+		return fmt.Sprintf("damaged(%d NAL units)", len(au))
+	}
+	last := au[len(au)-1]
+	k, i := int(last[1]), int(last[2])
+	want := e2eLLAU(k, i)
+	same := len(want) == len(au)
+	for j := 0; same && j < len(au); j++ {
+		same = bytes.Equal(au[j], want[j])
+	}
+	if !same {
+		return fmt.Sprintf("damaged(%d.%d)", k, i)
+	}
+	return fmt.Sprintf("%d.%d", k, i)
+}
+
+func e2eLLCopyAU(au [][]byte) [][]byte {
+	out := make([][]byte, len(au))
+	for i, n := range au {
+		out[i] = append([]byte(nil), n...)
+	}
+	return out
+}
+
+type e2eLLRun struct {
+	sc     e2eScenario
+	mu     sync.Mutex
+	cond   *sync.Cond
+	stopCh chan struct{}
+
+	plReqs    int   // playlist requests received
+	partReqs  []int // parts requested, in request order
+	otherReqs []string
+	blocked   bool // the reload after the last part has been received: every part has been pushed
+	procIdle  bool // the stream processor found the queue empty and no sample has been delivered since
+	parked    bool // the downloader announced the traditional throttle and has made no request since
+	throttles int
+	events    int
+	stop      bool
+	got       []string // access units as they entered the callback
+	gotDTS    []int64
+	changed   []string // access units that were different when the callback returned
+	maxAhead  int
+}
+
+func (r *e2eLLRun) pushed() int {
+	if r.plReqs < 1 {
+		return 0
+	}
+	return r.plReqs - 1
+}
+
+func (r *e2eLLRun) playlist(q int) []byte {
+	var sb strings.Builder
+	sb.WriteString("#EXTM3U\n#EXT-X-VERSION:9\n#EXT-X-TARGETDURATION:1\n" +
+		"#EXT-X-SERVER-CONTROL:CAN-BLOCK-RELOAD=YES,PART-HOLD-BACK=0.09000\n#EXT-X-PART-INF:PART-TARGET=0.03000\n" +
+		"#EXT-X-MEDIA-SEQUENCE:0\n#EXT-X-MAP:URI=\"init.mp4\"\n")
+	// a complete segment published before the first part of this session
+	sb.WriteString("#EXTINF:0.12000,\nbefore.mp4\n")
+	pps := r.sc.Parts
+	if pps < 1 {
+		pps = 4
+	}
+	for k := 0; k < q; k++ {
+		indep := ""
+		if k%pps == 0 {
+			indep = ",INDEPENDENT=YES"
+		}
+		fmt.Fprintf(&sb, "#EXT-X-PART:DURATION=0.03000,URI=\"part%d.mp4\"%s\n", k, indep)
+		if k%pps == pps-1 {
+			fmt.Fprintf(&sb, "#EXTINF:%.5f,\nllseg%d.mp4\n", 0.03*float64(pps), k/pps)
+		}
+	}
+	fmt.Fprintf(&sb, "#EXT-X-PRELOAD-HINT:TYPE=PART,URI=\"part%d.mp4\"\n", q)
+	return []byte(sb.String())
+}
+
+func (r *e2eLLRun) RoundTrip(req *http.Request) (*http.Response, error) {
+	p := req.URL.Path
+	var body []byte
+	status := 200
+	block := false
+	r.mu.Lock()
+	r.parked = false
+	r.events++
+	var k int
+	switch {
+	case p == "/index.m3u8":
+		q := r.plReqs
+		r.plReqs++
+		if q >= r.sc.N {
+			r.blocked = true
+			block = true
+		} else {
+			body = r.playlist(q)
+		}
+	case p == "/init.mp4":
+		body = e2eFMP4Init()
+	default:
+		if _, err := fmt.Sscanf(p, "/part%d.mp4", &k); err != nil || k < 0 || k >= r.sc.N {
+			// (a client in Low-Latency mode fetches nothing but the hinted parts)
+			r.otherReqs = append(r.otherReqs, p[1:])
+			status = 404
+			break
+		}
+		r.partReqs = append(r.partReqs, k)
+		body = e2eLLPart(k)
+		if r.sc.Paced && r.sc.Slow {
+			for !(len(r.got) > (k-r.sc.Lag-1)*e2eSamplesPerPart || r.stop) {
+				r.cond.Wait()
+			}
+			r.events++
+		}
+	}
+	r.cond.Broadcast()
+	r.mu.Unlock()
+	if block {
+		select {
+		case <-req.Context().Done():
+			return nil, req.Context().Err()
+		case <-r.stopCh:
+			return nil, errors.New("stub server closed")
+		}
+	}
+	return &http.Response{
+		StatusCode: status, Status: fmt.Sprintf("%d", status), Proto: "HTTP/1.1", ProtoMajor: 1, ProtoMinor: 1,
+		Header: http.Header{}, Body: io.NopCloser(bytes.NewReader(body)), ContentLength: int64(len(body)), Request: req,
+	}, nil
+}
+
+func (r *e2eLLRun) hook(point string) {
+	r.mu.Lock()
+	switch point {
+	case "queue:pull:unlocked":
+		r.procIdle = true
+	case "queue:waitBelow:unlocked":
+		r.parked = true
+		r.throttles++
+	}
+	r.events++
+	r.cond.Broadcast()
+	r.mu.Unlock()
+}
+
+func (r *e2eLLRun) onSample(dts int64, au [][]byte) {
+	entry := e2eLLCopyAU(au)
+	r.mu.Lock()
+	r.procIdle = false
+	r.events++
+	idx := len(r.got)
+	r.got = append(r.got, e2eLLDescribe(entry))
+	r.gotDTS = append(r.gotDTS, dts)
+	k := idx / e2eSamplesPerPart
+	if ahead := r.pushed() - k; ahead > r.maxAhead {
+		r.maxAhead = ahead
+	}
+	if r.sc.Slow && idx%e2eSamplesPerPart == 0 {
+		need := k + 1 + r.sc.Lag
+		if need > r.sc.N {
+			need = r.sc.N
+		}
+		// (released as well when the downloader sits in the traditional throttle: then it waits for this consumer)
+		for !(r.pushed() >= need || r.parked || r.stop) {
+			r.cond.Wait()
+		}
+		if ahead := r.pushed() - k; ahead > r.maxAhead {
+			r.maxAhead = ahead
+		}
+	}
+	// what the callback was given must still be there when it returns
+	if now := e2eLLDescribe(au); now != r.got[idx] {
+		r.changed = append(r.changed, fmt.Sprintf("#%d: %s became %s", idx, r.got[idx], now))
+	}
+	r.events++
+	r.cond.Broadcast()
+	r.mu.Unlock()
+}
+
+type e2eLLResult struct {
+	violation string
+	kind      string
+	infra     string
+	parts     int
+	delivered int
+	maxAhead  int
+	throttles int
+}
+
+func e2eLLExecute(sc e2eScenario) e2eLLResult {
+	r := &e2eLLRun{sc: sc, stopCh: make(chan struct{})}
+	r.cond = sync.NewCond(&r.mu)
+	gohlslib.VerifSetHook(r.hook)
+	defer gohlslib.VerifSetHook(hookFn)
+
+	cl := &gohlslib.Client{
+		URI:                       "http://stub.invalid/index.m3u8",
+		HTTPClient:                &http.Client{Transport: r},
+		OnDownloadPrimaryPlaylist: func(string) {},
+		OnDownloadStreamPlaylist:  func(string) {},
+		OnDownloadSegment:         func(string) {},
+		OnDownloadPart:            func(string) {},
+		OnDecodeError:             func(error) {},
+	}
+	cl.OnTracks = func(tracks []*gohlslib.Track) error {
+		for _, tr := range tracks {
+			if _, ok := tr.Codec.(*codecs.H264); ok {
+				cl.OnDataH26x(tr, func(_ int64, dts int64, au [][]byte) { r.onSample(dts, au) })
+			}
+		}
+		return nil
+	}
+	var res e2eLLResult
+	if err := cl.Start(); err != nil {
+		res.infra = "Client.Start: " + err.Error()
+		return res
+	}
+	// quiescence: everything pushed, the processor idle on an empty queue, every goroutine of the client blocked
+	finished := make(chan struct{})
+	go func() {
+		defer close(finished)
+		r.mu.Lock()
+		defer r.mu.Unlock()
+		for spins := 0; ; spins++ {
+			for !((r.blocked && r.procIdle) || r.stop) {
+				r.cond.Wait()
+			}
+			if r.stop {
+				return
+			}
+			ev := r.events
+			r.mu.Unlock()
+			_, quiet := e2eClientGoroutines()
+			r.mu.Lock()
+			if quiet && r.events == ev && r.blocked && r.procIdle {
+				return
+			}
+			r.mu.Unlock()
+			if spins < 100 {
+				runtime.Gosched()
+			} else {
+				time.Sleep(50 * time.Microsecond)
+			}
+			r.mu.Lock()
+		}
+	}()
+	var werr error
+	ended := false
+	select {
+	case <-finished:
+	case werr = <-cl.Wait():
+		ended = true
+	case <-time.After(20 * time.Second):
+		r.mu.Lock()
+		lines, _ := e2eClientGoroutines()
+		res.infra = fmt.Sprintf("watchdog: after 20 s the run is not over: %d playlist requests, parts requested %v, %d access units delivered, blocking reload received=%v, processor idle=%v; client goroutines: %v",
+			r.plReqs, r.partReqs, len(r.got), r.blocked, r.procIdle, lines)
+		r.mu.Unlock()
+	}
+	r.mu.Lock()
+	r.stop = true
+	r.cond.Broadcast()
+	r.mu.Unlock()
+	close(r.stopCh)
+	cl.Close()
+	<-finished
+
+	r.mu.Lock()
+	defer r.mu.Unlock()
+	res.parts, res.delivered, res.maxAhead, res.throttles = len(r.partReqs), len(r.got), r.maxAhead, r.throttles
+	if res.infra != "" {
+		return res
+	}
+	var want []string
+	var wantDTS []int64
+	for k := 0; k < sc.N; k++ {
+		for i := 0; i < e2eSamplesPerPart; i++ {
+			want = append(want, fmt.Sprintf("%d.%d", k, i))
+			wantDTS = append(wantDTS, int64((k*e2eSamplesPerPart+i)*e2eTick))
+		}
+	}
+	ctxt := fmt.Sprintf("Low-Latency playlist (CAN-BLOCK-RELOAD=YES, preload hint), %d parts of %d access units served once each as the hinted part (requested: %v), "+
+		"the consumer held in the callback of the first access unit of a part until the downloader is %d parts ahead (or all are queued); up to %d parts were queued and not yet fully delivered",
+		sc.N, e2eSamplesPerPart, r.partReqs, sc.Lag, r.maxAhead)
+	if len(r.otherReqs) != 0 {
+		ctxt += fmt.Sprintf("; other media requests (answered 404): %v", r.otherReqs)
+	}
+	if ended {
+		res.kind = "ll-parts-not-delivered:client-terminated"
+		res.violation = fmt.Sprintf("%s. The client terminated by itself with %q after %d of %d access units (delivered, as part.index: %v) although every body served was well formed",
+			ctxt, werr, len(r.got), len(want), r.got)
+		return res
+	}
+	// which sample of which part each delivered access unit is, judged by its own bytes
+	count := map[string]int{}
+	for _, g := range r.got {
+		count[g]++
+	}
+	isWant := map[string]bool{}
+	var missing, dup, alien, badDTS []string
+	for _, w := range want {
+		isWant[w] = true
+		switch c := count[w]; {
+		case c == 0:
+			missing = append(missing, w)
+		case c > 1:
+			dup = append(dup, fmt.Sprintf("%s x%d", w, c))
+		}
+	}
+	for _, g := range r.got {
+		if !isWant[g] {
+			alien = append(alien, g)
+		}
+	}
+	inOrder := strings.Join(r.got, " ") == strings.Join(want, " ")
+	if inOrder {
+		for i := range want {
+			if r.gotDTS[i] != wantDTS[i] {
+				badDTS = append(badDTS, fmt.Sprintf("%s: dts %d, served with %d", want[i], r.gotDTS[i], wantDTS[i]))
+			}
+		}
+	}
+	switch {
+	case inOrder && len(badDTS) == 0 && len(r.changed) == 0:
+		return res
+	case len(alien) != 0 || len(r.changed) != 0 || (len(missing) != 0 && len(dup) != 0):
+		// something else was delivered in place of what was served: a part never arrives and another one
+		// arrives twice, or the bytes are those of no served sample, or they change under the callback's eyes -
+		// what waited in the queue (or what the callback was looking at) was replaced
+		res.kind = "ll-part-payload-overwritten"
+	case len(missing) != 0 || len(dup) != 0:
+		res.kind = "ll-parts-not-exactly-once"
+	case !inOrder:
+		res.kind = "ll-parts-out-of-order"
+	default:
+		res.kind = "ll-part-dts-not-as-served"
+	}
+	res.violation = fmt.Sprintf("%s. Every part must reach the data callback exactly once, in download order, with the access units and the DTS that were served for it. "+
+		"Delivered (part.index, judged by the bytes of the access unit itself): %v with DTS %v; expected: %v with DTS %v; never delivered: %v; delivered more than once: %v; "+
+		"delivered but served in this form by nobody: %v; right access units in the right order with another DTS: %v; changed between entry to and return from the callback: %v",
+		ctxt, r.got, r.gotDTS, want, wantDTS, missing, dup, alien, badDTS, r.changed)
+	return res
+}
+
 // run every scenario; a hang counts only if it reproduces three times
 func e2eLeg(scs []e2eScenario, dist map[string]int) (fails []failure, errs []string, n int) {
 	for _, sc := range scs {
@@ -888,6 +1308,35 @@ func e2eLeg(scs []e2eScenario, dist map[string]int) (fails []failure, errs []str
 			if er.wrong != "" {
 				fails = append(fails, failure{Signature: "C20:order-or-eos:fmp4-track-fragment-without-samples",
 					What: "real Client, scenario " + sc.Name + ": " + er.wrong, Input: in, trad: true})
+			}
+			continue
+		}
+		if sc.Kind == "ll" {
+			var lr e2eLLResult
+			for try := 0; try < 3; try++ {
+				lr = e2eLLExecute(sc)
+				if lr.infra == "" {
+					break
+				}
+				dist["e2e:watchdog-retry"]++
+			}
+			n++
+			if lr.infra != "" {
+				errs = append(errs, "e2e scenario "+sc.Name+": "+lr.infra)
+				continue
+			}
+			dist["e2e:scenario:"+sc.Name]++
+			dist["e2e:ll:parts-requested"] += lr.parts
+			dist["e2e:ll:samples-delivered"] += lr.delivered
+			dist[fmt.Sprintf("e2e:ll:max(parts queued by the downloader - parts fully delivered) at a sample:%d", lr.maxAhead)]++
+			in, _ := json.Marshal(sc)
+			if lr.violation != "" {
+				fails = append(fails, failure{Signature: "C20:e2e:" + lr.kind,
+					What: "real Client, scenario " + sc.Name + ": " + lr.violation, Input: in, trad: true})
+			} else if sc.Slow && lr.maxAhead < 4 {
+				// the held consumer is supposed to let the unthrottled downloader run ahead
+				errs = append(errs, fmt.Sprintf("e2e scenario %s: the Low-Latency downloader never got 4 parts ahead of the held consumer (at most %d; seen in the traditional throttle %d times): "+
+					"the scenario does not exercise what it is meant to", sc.Name, lr.maxAhead, lr.throttles))
 			}
 			continue
 		}
